@@ -652,6 +652,9 @@ func checkSched(c Case) pbt.Result {
 	env.Store.Counting(true)
 	out := sc.run(env, c.Choices)
 	res := pbt.Result{Classes: []string{"sched", fmt.Sprintf("sched:%d-requests", len(c.Reqs))}}
+	if os.Getenv("VERIF_C20_TRACE") == "1" {
+		fmt.Printf("TRACE grants: %s | deadlock=%v inconclusive=%q\n", strings.Join(out.trace, " "), out.deadlock != "", out.inconclusive)
+	}
 	if out.inconclusive != "" {
 		return pbt.Result{Skip: true}
 	}
@@ -1097,9 +1100,13 @@ func genWorld(t *rapid.T, c *Case) *world {
 		c.Init = append(c.Init, s)
 		w.users[s.Name] = s.Pw
 	}
+	// Seeded services never share an entity ID with different metadata: which of two such
+	// registrations a freshly started server uses depends on map iteration order in the
+	// code under test, and a schedule must replay deterministically.
+	perEntity := []int{rapid.IntRange(0, 1).Draw(t, "variant-e0"), 2 + rapid.IntRange(0, 1).Draw(t, "variant-e1")}
 	ns := rapid.IntRange(1, 3).Draw(t, "nservices")
 	for i := 0; i < ns; i++ {
-		s := Step{Op: "put_service", Name: idpsrv.ServiceNames[i], MD: rapid.IntRange(0, 3).Draw(t, "md"), Pw: -1}
+		s := Step{Op: "put_service", Name: idpsrv.ServiceNames[i], MD: perEntity[rapid.IntRange(0, 1).Draw(t, "entity")], Pw: -1}
 		c.Init = append(c.Init, s)
 		w.services[s.Name] = s.MD
 	}
@@ -1391,16 +1398,7 @@ func checkNoting(c Case) pbt.Result {
 func TestCheck(t *testing.T) { pbt.Run(t, propSched) }
 
 // FuzzCheck drives the controlled scheduler from the native fuzzer.
-func FuzzCheck(f *testing.F) {
-	// seed inputs: rapid reads its draws from the fuzz input, and an empty corpus only yields
-	// "not enough data"; a few long deterministic byte streams give the mutator valid cases
-	for i := uint64(1); i <= 8; i++ {
-		buf := make([]byte, 8192)
-		_, _ = idpsrv.SeededReader(i).Read(buf)
-		f.Add(buf)
-	}
-	pbt.Fuzz(f, propSched)
-}
+func FuzzCheck(f *testing.F) { pbt.Fuzz(f, propSched) }
 
 // TestRaceWorker runs the free-running programs in this process (race-built binary).
 // It is meant to be started by TestRace only.
@@ -1493,6 +1491,17 @@ func TestRace(t *testing.T) {
 	if f, err := os.OpenFile(filepath.Join(out, "violations.log"), os.O_APPEND|os.O_CREATE|os.O_WRONLY, 0o644); err == nil {
 		_, _ = f.WriteString(line)
 		_ = f.Close()
+	}
+	// the worker may have died before its first flush: leave a (partial) shard report
+	if _, serr := os.Stat(filepath.Join(out, "report.json")); serr != nil && replay == "" {
+		shard, _ := strconv.Atoi(os.Getenv("VERIF_SHARD"))
+		nsh, _ := strconv.Atoi(os.Getenv("VERIF_NSHARDS"))
+		rep := map[string]any{"id": "C20", "tier": pbt.Tier(), "shard": shard, "nshards": nsh, "evaluations": 0, "complete": false,
+			"rule": propSched.Rule, "assumptions": propSched.Assumptions, "classes": map[string]int{"race:worker-died-on-a-race-report": 1},
+			"violations": []map[string]string{{"replay": path, "err": what, "phase": "race"}}}
+		if buf, merr := json.MarshalIndent(rep, "", " "); merr == nil {
+			_ = os.WriteFile(filepath.Join(out, "report.json"), buf, 0o644)
+		}
 	}
 	t.Fail()
 }
